@@ -61,6 +61,10 @@ func (verifGeo) Data(_ string, ip netip.Addr) (*geoip.Location, error) {
 	if ip == netip.AddrFrom4([4]byte{198, 51, 100, 7}) {
 		return &geoip.Location{Country: "NL", ASN: 64500}, nil
 	}
+	if ip == netip.AddrFrom4([4]byte{203, 0, 113, 0}) {
+		// the network a client may name in an ECS option lies elsewhere
+		return &geoip.Location{Country: "US", ASN: 64999}, nil
+	}
 	return nil, nil
 }
 
@@ -138,7 +142,7 @@ func (w *verifRW) WriteMsg(context.Context, *dns.Msg, *dns.Msg) error { w.writes
 // drops silently, prefers the profile's limiter and counts responses on the limiter
 // that admitted the request.
 //
-//verif:harness name=H10b-middleware tier=quick,thorough bounds="every combination of: client port zero or not, device result kind (none, OK, auth failure, unknown dedicated, error), global IP / global name / profile verdicts, protocol limited or not, profile limiter result (drop, use-global, pass), global limiter (drop, allowlisted, pass), next handler answering or not" reach=blocked,served,ratelimited,dropped-device maxpaths=100000
+//verif:harness name=H10b-middleware tier=quick,thorough bounds="every combination of: request with or without a client-supplied ECS option naming a network in another autonomous system, client port zero or not, device result kind (none, OK, auth failure, unknown dedicated, error), global IP / global name / profile verdicts, protocol limited or not, profile limiter result (drop, use-global, pass), global limiter (drop, allowlisted, pass), next handler answering or not" reach=blocked,served,ratelimited,dropped-device maxpaths=100000
 //verif:assume access verdicts, device finder, GeoIP and limiters are stubs returning symbolic choices (their own logic is decided by H10a, C03, C09)
 func VerifC10Middleware() {
 	verifPoolMode(1)
@@ -207,6 +211,13 @@ func VerifC10Middleware() {
 	}
 	req := &dns.Msg{}
 	req.SetQuestion("example.org.", dns.TypeA)
+	if verifChoice(2) == 1 {
+		// a client-supplied subnet option naming a network somewhere else: access
+		// control and the request's location stay those of the real client
+		req.SetEdns0(1232, false)
+		o := req.IsEdns0()
+		o.Option = append(o.Option, &dns.EDNS0_SUBNET{Code: dns.EDNS0SUBNET, Family: 1, SourceNetmask: 24, Address: net.IP{203, 0, 113, 0}})
+	}
 	h := mw.Wrap(next)
 	serveErr := h.ServeDNS(context.Background(), rw, req)
 
